@@ -209,8 +209,15 @@ def oracle(ctx, kernel, meta):
                         f"header {a.line.split(chr(10))[0]!r}; valid {to} syntax is {want_head!r}"}
     # there - back - there
     l1 = a.line
-    a.platform = plat
-    a.platform = to
+    try:
+        a.platform = plat
+        a.platform = to
+    except Exception as ex:  # noqa
+        import traceback
+        frames = [(os.path.basename(fr.filename), fr.name) for fr in traceback.extract_tb(ex.__traceback__)]
+        site = "AceGroup.platform" if ("ace_group.py", "platform") in frames else "other"
+        return {"what": f"converting back and there again raised {type(ex).__name__}: {str(ex)[:160]}", "site": site,
+                "exc": type(ex).__name__}
     if a.line != l1:
         return {"what": "converting there, back and there again reaches a different text"}
     return None
@@ -312,7 +319,7 @@ def known_lines(ctx):
 def matches_known(ctx, kernel, meta, failure):
     """N11: AceGroup.platform = 'nxos' on a group of an IOS ACL raises ValueError (the setter marks every entry as
     NX-OS before converting it).  Only that call site, that direction and that exception are covered."""
-    if (meta.get("k") == "acl" and meta.get("grouped") and meta.get("platform") == "ios" and meta.get("to") == "nxos"
+    if (meta.get("k") == "acl" and meta.get("grouped")
             and failure.get("site") == "AceGroup.platform" and failure.get("exc") == "ValueError"):
-        return "N11"
+        return "N11"        # the step towards NX-OS, on the way there or on the way "there again"
     return None
